@@ -217,6 +217,8 @@ static int streamDispatch(MPT_INTERFACE(input) *in, MPT_TYPE(event_handler) cmd,
 				return MPT_EVENTFLAG(None);
 			}
 		}
+		/* length of the message that just became available */
+		len = srm->data._rd._state.data.msg;
 	}
 	if (cmd) {
 		struct streamWrap sw;
